@@ -1324,6 +1324,14 @@ bool WFXMLScanner::scanStartTagNS(bool& gotData)
                     else if(!*namespaceURI && fXMLVersion == XMLReader::XMLV1_0)
                         emitError(XMLErrs::NoEmptyStrNamespace, attNameRawBuf);
 
+                    // the reserved namespace names cannot be bound to other prefixes
+                    if (XMLString::equals(namespaceURI, XMLUni::fgXMLNSURIName))
+                        emitError(XMLErrs::NoUseOfxmlnsURI);
+                    else if (XMLString::equals(namespaceURI, XMLUni::fgXMLURIName)) {
+                        if (!XMLString::equals(attLocalName, XMLUni::fgXMLString))
+                            emitError(XMLErrs::XMLURINotMatchXMLPrefix);
+                    }
+
                     fElemStack.addPrefix
                     (
                         attLocalName
